@@ -90,7 +90,7 @@ func c16Run(c c16Case, events []ev, x *pbt.Ctx) (int, bool, error) {
 	if err != nil {
 		return 0, false, err
 	}
-	defer h.n.Stop()
+	defer h.n.Close()
 	w := h.w
 	e := w.P.Epoch
 	honest := map[int][]voteKey{} // key index -> votes cast
@@ -223,7 +223,7 @@ func c16Run(c c16Case, events []ev, x *pbt.Ctx) (int, bool, error) {
 		if err != nil {
 			return 0, false, fmt.Errorf("HARNESS: %v", err)
 		}
-		defer n2.Stop()
+		defer n2.Close()
 		for i := 1; i < len(w.Blocks); i++ {
 			if h.delivered[i] {
 				n2.Deliver(i)
